@@ -43,6 +43,7 @@ def gen_case(rng, tier, idx):
 def run_case(case):
     rng = random.Random(case["stim_seed"])
     mon = Mon()
+    all_maps = []           # every map created for the tree
     all_res = []            # every resource added anywhere in the tree
     shape = []              # canonical description of the tree
     st = {"n": 0, "nontrivial": False, "kinds": set(), "depth": 0}
@@ -57,6 +58,7 @@ def run_case(case):
         if al >= aw:
             al = min_align
         m = MemoryMap(addr_width=aw, data_width=dw, alignment=al)
+        all_maps.append(m)
         st["depth"] = max(st["depth"], lvl)
         desc = {"aw": aw, "dw": dw, "al": al, "items": []}
         n_items = rng.randint(1, 5) if rng.random() < 0.9 else rng.randint(17, 40)
@@ -124,7 +126,7 @@ def run_case(case):
 
     root, desc = build(case["root_aw"], case["root_dw"], case["depth"])
 
-    def checks():
+    def checks(root=root):
         exp = translate_tree(root)
         got = [(id(i.resource), tuple(tuple(p) for p in i.path), i.start, i.end, i.width)
                for i in root.all_resources()]
@@ -207,7 +209,29 @@ def run_case(case):
                 d = None
             mon.ok("decode_miss", d is None, f"decode_address({a}) outside the map returned {d!r}")
 
-    mon.run(checks)
+    # a second vantage point: another root that windows one of the (already frozen) subtrees - the same map object
+    # seen from two parents at different bases / under different names (CPU bus and DMA bus, say)
+    second = None
+    subs = [m for m in all_maps if m is not root and m._frozen]
+    if subs and rng.random() < 0.5:
+        sub = rng.choice(subs)
+        aw2 = min(sub.addr_width + rng.randint(1, 3), 64)
+        second = MemoryMap(addr_width=aw2, data_width=sub.data_width)
+        try:
+            if rng.random() < 0.7:
+                second.add_resource(Res(), name="vantage_pad", size=rng.choice([1, 3, 1 << sub.addr_width]))
+            second.add_window(sub, name=rng.choice([None, "alias", ("alias", 1)]))
+        except ValueError:
+            second = None
+    if second is not None and rng.random() < 0.5:
+        mon.run(lambda: checks(second))
+        mon.run(checks)
+    else:
+        mon.run(checks)
+        if second is not None:
+            mon.run(lambda: checks(second))
+    if second is not None:
+        mon.count("second_vantage_points")
     mon.bin("depth", st["depth"])
     for k in st["kinds"]:
         mon.bin("window_kinds", k)
